@@ -1398,9 +1398,15 @@ done:
 
 static void ares_detach_query(ares_query_t *query)
 {
-  /* Remove the query from all the lists in which it is linked */
+  /* Remove the query from all the lists in which it is linked.  This may be
+   * called more than once for the same query (before its callback runs and
+   * again when it is freed), so only drop the qid mapping if it is still ours;
+   * the callback may have started a new query that reuses the id. */
   ares_query_remove_from_conn(query);
-  ares_htable_szvp_remove(query->channel->queries_by_qid, query->qid);
+  if (ares_htable_szvp_get_direct(query->channel->queries_by_qid,
+                                  query->qid) == query) {
+    ares_htable_szvp_remove(query->channel->queries_by_qid, query->qid);
+  }
   ares_llist_node_destroy(query->node_all_queries);
   query->node_all_queries = NULL;
 }
@@ -1416,6 +1422,11 @@ static void end_query(ares_channel_t *channel, ares_server_t *server,
   }
 
   ares_metrics_record(query, server, status, dnsrec);
+
+  /* Unlink the query from every index before invoking the callback.  The
+   * callback may call ares_cancel() or start new queries; it must not be able
+   * to find (and complete or free) this query a second time. */
+  ares_detach_query(query);
 
   /* Invoke the callback. */
   query->callback(query->arg, status, query->timeouts, dnsrec);
